@@ -149,6 +149,11 @@ func init() {
 					if g.Chance(1, 3) {
 						// noise: blank, comment, or a line the parser rejects
 						cand := Pick(g, []string{"", "   ", "! comment", "# comment", "#", "!", "\t", "||", "a", "||example.org^$unknown", "example.org#$#x", "@@", "||a^$domain=", "bad domain##x", "#@#.x", "$$"})
+						if g.Chance(1, 8) {
+							// a comment or a rejected line longer than the scanner's 4096-byte buffer whose tail would parse as a
+							// rule on its own; the line is inert as a whole
+							cand = Pick(g, []string{"! ", "# ", "||a^$unknown="}) + strings.Repeat("x", 4070+g.Intn(60)) + Pick(g, []string{"||", " ", "/"}) + Pick(g, hostPool) + "^"
+						}
 						if r, err := rules.NewRule(cand, 1); r == nil || err != nil {
 							lines = append(lines, cand)
 							mask = append(mask, '1')
